@@ -20,14 +20,17 @@ import numpy as np
 from . import core
 
 KIND = {"ninf": -np.inf, "zero": 0.0, "m1": -1.0, "inf": np.inf, "one": 1.0}
-IMAGES = ["clean", "noisy", "fixedpoint", "neighbour", "tiny", "wall"]
+IMAGES = ["clean", "noisy", "fixedpoint", "neighbour", "wall"]     # env.support and not env.flat
+VARIANT_OF_W2 = {2: 0, 1: 1, 0: 2}    # grid spacing 1, 1/2, 1/4: floor(2 w) for w = one spacing
 
 
 def make_grid(fam, variant):
     from pde import CartesianGrid, CylindricalSymGrid, PolarSymGrid, SphericalSymGrid
 
     n = fam["name"]
-    dx = [1.0, 0.5, 0.25][variant % 3]
+    dx = [1.0, 0.5, 0.25][variant % 3]        # = typical discretisation h of the grid, whatever the family
+    if not n.startswith("cart"):
+        dx = 2 * dx                            # the symmetric grids below have cells of size dx / 2
     if n.startswith("cart1"):
         return CartesianGrid([[2.0, 2.0 + 40 * dx]], 40, periodic="periodic" in n)
     if n.startswith("cart2"):
@@ -115,6 +118,7 @@ def scenario(rec, variant, image):
             tp[a] = np.floor((tp[a] - lo[min(a, len(lo) - 1)]) / h) * h + lo[min(a, len(lo) - 1)] if n.startswith("cart") else tp[a]
         cand = mk(cls, tp, 0.05 * h, cw, np.zeros(modes))
     levels = (0.0, 1.0) if req["levels"] in ("fixed", "adjust") else (2.0, 5.0)
+    flat = bool(rec.get("env", {}).get("flat", False))
     with warnings.catch_warnings():
         warnings.simplefilter("ignore")
         field = src.get_phase_field(grid, vmin=levels[0], vmax=levels[1])
@@ -123,6 +127,10 @@ def scenario(rec, variant, image):
         if image == "neighbour" and n.startswith("cart") and dim == 2:
             other = D.DiffuseDroplet(pos + np.array([0.0, 2.2 * R]), 0.8 * R, w)
             field.data += other.get_phase_field(grid, vmin=0, vmax=levels[1] - levels[0]).data
+    if flat:
+        # a homogeneous region: constant image; supplied levels coincide (intensity range zero)
+        field.data[...] = 3.0
+        levels = (3.0, 3.0) if image == "flat" else (2.5, 2.5)
     kw = {"fixed": dict(vmin=levels[0], vmax=levels[1]), "auto": dict(vmin=None, vmax=None),
           "adjust": dict(vmin=levels[0], vmax=levels[1], adjust_values=True),
           "autoadjust": dict(vmin=None, vmax=None, adjust_values=True)}[req["levels"]]
@@ -186,8 +194,10 @@ def run_case(rec, variant, image):
     finally:
         image_analysis.optimize = proxy.real
     # ---- what the solver was given
-    if image == "tiny" and len(proxy.calls) == 0:
-        pass  # nothing to fit: the candidate covers no support point
+    support = bool(rec.get("env", {"support": image != "tiny"})["support"])
+    if not support:
+        if len(proxy.calls) != 0:
+            fails.append(f"{len(proxy.calls)} solver calls although the spec's region holds no support point")
     elif len(proxy.calls) != 1:
         fails.append(f"{len(proxy.calls)} solver calls")
     else:
@@ -241,11 +251,27 @@ def run_case(rec, variant, image):
         wr = pr.interface_width if pr.interface_width is not None else grid.typical_discretization
         pr = pr.copy()
         pr.interface_width = wr
-        region = ndimage.binary_dilation(pr._get_phase_field(grid, dtype=bool), iterations=1 + int(2 * wr))
+        iters = rec.get("iters") or 1 + int(2 * wr)
+        if iters != 1 + int(2 * wr):
+            raise core.MachineryError(f"scenario does not realise the spec's w2: iters {iters}, width {wr}")
+        region = ndimage.binary_dilation(pr._get_phase_field(grid, dtype=bool), iterations=iters)
         if int(region.sum()) != proxy.calls[0]["nres"]:
-            fails.append(f"fit region has {proxy.calls[0]['nres']} cells, the documented region {int(region.sum())}")
+            fails.append(f"fit region has {proxy.calls[0]['nres']} cells, the spec's region (dilated {iters} times) {int(region.sum())}")
+        c = proxy.calls[0]
+        if rec["nextra"] == 2 and len(c["x0"]) == len(rec["free"]) + 2:
+            # intensity parameters: start (vmin, vrng), bounds [vmin - vrng, vmax] and [0, 3 vrng]
+            dm = field.data[region]
+            v0 = kw["vmin"] if kw["vmin"] is not None else float(dm.min())
+            v1 = kw["vmax"] if kw["vmax"] is not None else float(dm.max())
+            lo2 = np.broadcast_to(c["lo"], c["x0"].shape)[-2:]
+            hi2 = np.broadcast_to(c["hi"], c["x0"].shape)[-2:]
+            want = {"vmin-vrng": v0 - (v1 - v0), "zero": 0.0, "vmax": v1, "3vrng": 3 * (v1 - v0)}
+            if list(c["x0"][-2:]) != [v0, v1 - v0]:
+                fails.append(f"intensity parameters start at {list(c['x0'][-2:])}, spec: (vmin, vrng) = {[v0, v1 - v0]}")
+            if list(lo2) != [want[k] for k in rec["xlo"]] or list(hi2) != [want[k] for k in rec["xhi"]]:
+                fails.append(f"intensity bounds {list(lo2)}..{list(hi2)} differ from the spec's {rec['xlo']}..{rec['xhi']}")
     # ---- the documented objective over the documented region must not increase
-    if req["levels"] in ("fixed", "auto") and image != "tiny":
+    if req["levels"] in ("fixed", "auto") and image != "tiny" and not rec.get("env", {}).get("flat"):
         promoted = cand0 if isinstance(cand0, DiffuseDroplet) else DiffuseDroplet.from_droplet(cand0)
         w0 = promoted.interface_width if promoted.interface_width is not None else grid.typical_discretization
         promoted = promoted.copy()
@@ -305,16 +331,25 @@ def run(out: core.Outcome) -> None:
     if r.violated:
         out.violation({"tlc_config": name, "violated": r.violated, "tlc_tail": r.stdout[-3000:]})
         return
-    r.require_actions(["Promote", "DefaultWidth", "FreeMask", "Bounds", "Solve", "Wrap"])
+    r.require_actions(["Promote", "DefaultWidth", "Region", "NoSupport", "FreeMask", "Bounds", "Levels", "Solve", "Wrap"])
     out.add_tlc(name, r)
     cases = []
-    nvar = 1 if out.tier == "quick" else 3
     for idx, rec in enumerate(r.printed):
-        for v in range(nvar):
-            for image in IMAGES:
+        env = rec["env"]
+        variants = [VARIANT_OF_W2[env["w2"]]]
+        if rec["req"]["width"] == "zero":          # a sharp candidate: w2 = 0 on every grid
+            variants = [idx % 3] if out.tier == "quick" else [0, 1, 2]
+        if not env["support"]:
+            images = ["tiny"]
+        elif env["flat"]:
+            images = ["flat", "flat2"]
+        else:
+            images = IMAGES
+        for v in variants:
+            for image in images:
                 if image == "neighbour" and not (rec["req"]["fam"]["name"].startswith("cart2")):
                     continue
-                cases.append((idx, rec, (idx + v) % 3 if out.tier == "quick" else v, image))
+                cases.append((idx, rec, v, image))
     # heavy 3-D cases first
     cases.sort(key=lambda c: -(c[1]["req"]["fam"]["dim"] ** 3 * (1 + c[1]["req"]["modes"])))
     chunks = [cases[i :: core.NCPU * 4] for i in range(core.NCPU * 4)]
@@ -329,6 +364,10 @@ def run(out: core.Outcome) -> None:
     out.nontrivial_count = out.evaluations
     out.parts[name].update(requests=len(r.printed), cases=len(cases), mismatches=nbad)
     out.sample(r.printed[len(r.printed) // 2])
+    # code -> spec: random executions validated by TLC (TraceRefine.tla)
+    from . import c04trace
+
+    c04trace.run(out, 600 if out.tier == "quick" else 12000, seed0=out.seed * 1000003)
     out.exhaustive = True
     out.explanation = out.rule
     out.assumptions = [
